@@ -35,7 +35,8 @@ def items_for(d, extra=False):
     if extra:
         # one-element and 0-d integer arrays, unsigned dtypes, and a second 1-D array of the same shape and dtype as the
         # first but other contents
-        its += [['a1', [d - 1]], ['a0', d - 1], ['a1', [0, d - 1, 0], 'uint8'], ['a1', [d - 1, 0, 0, 0], 'uint32'], ['a1', [d - 1, d - 1, -d]]]
+        its += [['a1', [d - 1]], ['a0', d - 1], ['a1', [0, d - 1, 0], 'uint8'], ['a1', [d - 1, 0, 0, 0], 'uint32'], ['a1', [d - 1, d - 1, -d]],
+                ['l1', [0, 0, d - 1]], ['l1', [d - 1, 0]]]   # plain Python lists (with and without a repeated entry)
     return its
 
 
@@ -107,6 +108,8 @@ def to_np(item):
         return item[1]
     if k == 'sl':
         return slice(item[1], item[2], item[3])
+    if k == 'l1':
+        return list(item[1])
     if k in ('a1', 'a2', 'au', 'a0'):
         return np.array(item[1], dtype=item[2] if len(item) > 2 else None)
     if k == 'mask':
@@ -154,7 +157,7 @@ def check_index(case, violations, counters):
         return False
     # keep the alphabet where numpy and JAX semantics are documented to coincide: at most one boolean mask, in bounds
     has_mask = any(i[0] == 'mask' for i in case['idx'])
-    declared_unique = any(i[0] == 'au' for i in case['idx']) and not any(i[0] in ('a1', 'a2') for i in case['idx'])
+    declared_unique = any(i[0] == 'au' for i in case['idx']) and not any(i[0] in ('a1', 'a2', 'l1') for i in case['idx'])
     idx = to_jax(idx_np)
     in_s = jax.ShapeDtypeStruct(shape, f32)
     out_s = jax.ShapeDtypeStruct(ref.shape, f32)
@@ -205,7 +208,7 @@ def check_index(case, violations, counters):
             violations.append({'kind': 'PPt-wrong', 'case': case, 'detail': f'(P @ P.T).reduce() denotes {P.mat_summary(m1, 36)} but P P^T = {P.mat_summary(PPt, 36)}'})
         if isinstance(r1, IdentityOperator) and not dup_free:
             violations.append({'kind': 'PPt-identity-with-duplicates', 'case': case, 'detail': 'simplified to the identity although an input element is selected twice'})
-        derived_unique = not any(i[0] in ('a1', 'a2', 'au') for i in case['idx'])
+        derived_unique = not any(i[0] in ('a1', 'a2', 'au', 'l1') for i in case['idx'])
         if (derived_unique or declared_unique) and not isinstance(r1, IdentityOperator):
             counters['PPt_duplicate_free_not_simplified'] += 1  # information only: the property forbids the converse (C07 owns liveness)
         r2 = CompositionOperator([T, op]).reduce()
